@@ -50,6 +50,11 @@ CLAIMS = {
         "Trusted: symx interception layer, z3. Gene names are concrete strings per path (forked choice); bins naming several genes are outside the precondition; squash_genes gets a mean as summary function.",
         "DESIGN.md 4/C16",
     ),
+    "C17": (
+        "The real do_segmetrics runs on a table whose segments hold 0, 1, 2 and 3 bins (4 thorough; one bin straddles a segment edge) with symbolic bin and segment log2; z3 proves per path that mean/median are taken over exactly the overlapping bins, stdev/MAD/MSE/IQR/SEM over their deviations from the segment log2 (independent closed-form terms), that the t-test and the biweight midvariance receive exactly those values (spies), pi_lo/pi_hi are the alpha/2 and 1-alpha/2 percentiles with pi_lo <= median <= pi_hi, the bootstrap interval is ordered, inside the bins' range and identical on a second run, and the segments' own columns are unchanged. p_adjust_bh (symbolic p vectors of length <= 3, 4 thorough) equals the Benjamini-Hochberg step-up definition; do_bintest returns exactly the bins whose adjusted two-sided normal p (Phi uninterpreted, monotone, symmetric) is below a symbolic alpha, on-target only when asked.",
+        "Trusted: symx interception layer, z3; stubs: scipy ttest_1samp and biweight_midvariance return fresh values, scipy sem is modelled as sqrt(var/n), norm.cdf is an uninterpreted Phi. Bootstrap resample indices are concrete (fixed seed) with concrete unequal weights.",
+        "DESIGN.md 4/C17",
+    ),
     "C19": (
         "The real descriptives (weighted_median, MAD, IQR, gapper, Qn, weighted MAD/std, on_array/on_weighted_array NaN handling; biweight location/midvariance only for n <= 2 and constant data) and smoothers (rolling_median through a window model of Series.rolling, unweighted kaiser, weighted savgol via convolve_weighted, _width2wing/_pad_array/check_inputs) run on symbolic vectors of length 1..4 (thorough up to 6); z3 proves per path non-negativity, zero on constants, shift invariance, scale equivariance (concrete factors), equality with independent closed-form definitions (sorting networks of If-terms), the half-weight clauses of the weighted median and its equality with the ordinary median for equal weights, one finite value per input, range and constant reproduction of the smoothers, and rolling median = median of the mirrored window.",
         "Trusted: symx interception layer (rolling/convolve/percentile models are compared with numpy/pandas by setup.sh's selfcheck), z3; sqrt uninterpreted. Not covered: biweight numerics beyond n = 2, modal_location, unweighted savgol (compiled scipy); linear filters carry a 1e-9 slack.",
